@@ -2204,15 +2204,8 @@ func (r *RigS) checkDrops(tasks map[string]*meta.TaskInfo, sn server.VerifSnapsh
 				continue
 			}
 			ti := tasks[owner]
-			// a task that stopped itself although nothing but crashes was injected in the whole run (no fault, no slow call) and
-			// the operator never paused it has failed on the service's own account: the drop it owes is judged all the same
-			failedAlone := ti != nil && quiescent && ti.State == meta.TaskStatePaused && ti.Reason != "" && !strings.HasPrefix(ti.Reason, "manually pause") &&
-				!strings.HasPrefix(ti.Reason, "the task is disabled auto start") && r.faultTotal() == 0 && r.st.Tasks[owner] != nil && !r.st.Tasks[owner].OpPause
-			if ti == nil || !quiescent || ((ti.State != meta.TaskStateRunning || sn.Tasks[owner].State != "Running") && !failedAlone) {
+			if ti == nil || !quiescent || ti.State != meta.TaskStateRunning || sn.Tasks[owner].State != "Running" {
 				continue
-			}
-			if failedAlone {
-				s.Probe("S_drop_owed_by_task_that_failed_without_fault")
 			}
 			complete := true // the drop message is published on every shard, inside the replication domain of the task's stream
 			for sh := 0; sh < c.Shard; sh++ {
@@ -2234,8 +2227,7 @@ func (r *RigS) checkDrops(tasks map[string]*meta.TaskInfo, sn server.VerifSnapsh
 				continue
 			}
 			cls := r.classOf(tasks, owner)
-			if cls == "" && (r.bgPaused[tgt] || r.bgTouched[tgt]) && !failedAlone {
-				// (a task that failed with nothing injected is no bystander of its own failure)
+			if cls == "" && (r.bgPaused[tgt] || r.bgTouched[tgt]) {
 				cls = "_bystander_of_failed_task"
 			}
 			if cls == "" {
@@ -2256,11 +2248,7 @@ func (r *RigS) checkDrops(tasks map[string]*meta.TaskInfo, sn server.VerifSnapsh
 			}
 			s.Probe("S_drop_liveness_checked")
 			if r.st.SDK[tgt].Colls[c.DB+"/"+c.Name] != nil {
-				how := "is Running and idle"
-				if failedAlone {
-					how = fmt.Sprintf("stopped itself (reason %q) although no fault was injected in the whole run", ti.Reason)
-				}
-				s.Violate("C04", "S_drop_missing"+cls, "downstream %d: collection %s (%d) is dropped at the source (drop message published on every shard), its task %s %s, but the collection still exists downstream (%d drop request(s) so far)", tgt, c.Name, c.ID, owner, how, len(reqs))
+				s.Violate("C04", "S_drop_missing"+cls, "downstream %d: collection %s (%d) is dropped at the source (drop message published on every shard), its task %s is Running and idle, but the collection still exists downstream (%d drop request(s) so far)", tgt, c.Name, c.ID, owner, len(reqs))
 				continue
 			}
 			if len(reqs) > 0 && ddl[reqs[len(reqs)-1]].Inc == r.plan.Incarnation && r.s.Stats["fault:taskmsg_store_err"] == 0 && strings.Contains(r.rawStore(), fmt.Sprintf("/%s/drop-collection-%d", owner, c.ID)) {
